@@ -25,7 +25,7 @@ ASSUMPTIONS = [
     "contents = the ordered list of registered profile names (each custom name has one fixed definition in the generator's pool); order matters because later profiles' macros override earlier ones",
     "adding a name that is already registered is observed (replace or duplicate), then the invariants are checked on what results",
 ]
-PROBES = ["recurrence_hit", "builtins_only_state", "macro_override_active", "rejected_removal", "default_profiles_restricted", "removed_all_and_readded", "interleaved_removal"]
+PROBES = ["recurrence_hit", "builtins_only_state", "macro_override_active", "rejected_removal", "default_profiles_restricted", "removed_all_and_readded", "interleaved_removal", "emptied_by_single_removals", "compared_with_direct_build"]
 
 BATTERY = [
     ("width", "1px"), ("width", "1em"), ("width", "1.5px"), ("width", "bar"), ("width", "5"),
@@ -51,6 +51,10 @@ CUSTOM = {
     "P5": ({"-x-e": "{mymacro}|{color}"}, {"color": "red|green", "mymacro": "x|y"}),
     "P6": ({"-x-f": _ok, "border-top-width": "{border-width}"}, {"border-width": "thin"}),
 }
+
+
+SELF_CONTAINED = ("P1", "P3", "P4")  # use token / general macros and their own only: valid in an otherwise empty registry
+NOMACROS_OK = ("P3", "P4")  # the properties stay defined without the profile's own macros (general {num} / {length} apply)
 
 
 def config(rs, run, tier):
@@ -82,6 +86,8 @@ class World:
         self.reg = P.Profiles(log=cssutils.log)
         self.builtins = list(self.reg.profiles)
         self.seen = {}
+        self.variant = {}  # custom name -> "" (pool definition) | "#nm" (same properties, registered without its macros)
+        self.refcache = {}
         self.fresh = self.observe(P.Profiles(log=cssutils.log))
         self.removed_any = False
         self.check("init")
@@ -104,7 +110,23 @@ class World:
                 raise Viol("verdict_total", f"{where}:validate-raises", f"after {where}: validate/validateWithProfile({n!r}, {v!r}) -> {a!r}/{b!r}; profiles {reg.profiles}")
             if a != b:
                 raise Viol("validate_agrees", f"{where}:validate-vs-withProfile", f"after {where}: validate({n!r}, {v!r})={a} but validateWithProfile -> valid={b}")
-        key = tuple(reg.profiles)
+        key = tuple(n + self.variant.get(n, "") for n in reg.profiles)
+        nb = len(self.builtins)
+        if list(reg.profiles[:nb]) == self.builtins and len(key) > nb and all(n in CUSTOM for n in reg.profiles[nb:]) and len(set(reg.profiles)) == len(key):
+            # contents, not history: a registry built directly with these contents gives the same answers
+            if key not in self.refcache:
+                ref = self.P.Profiles(log=self.cu.log)
+                for n in reg.profiles[nb:]:
+                    props, macros = CUSTOM[n]
+                    ref.addProfile(n, dict(props), dict(macros) if macros and not self.variant.get(n) else None)
+                self.refcache[key] = self.observe(ref)
+            self.stats["oracle"] += 1
+            self.stats["probe:compared_with_direct_build"] += 1
+            want = self.refcache[key]
+            if want != obs:
+                diff = [(BATTERY[i], want[0][i], obs[0][i]) for i in range(len(BATTERY)) if want[0][i] != obs[0][i]][:4]
+                what = "verdicts" if diff else "knownNames" if want[1] != obs[1] else "propertiesByProfile"
+                raise Viol("equals_direct_build", f"{where}:{what}", f"after {where}: registry contents {key[nb:]} differ in {what} from a new registry given the same profiles directly: {diff or (set(want[1]) ^ set(obs[1]))}")
         if key in self.seen:
             self.stats["probe:recurrence_hit"] += 1
             old = self.seen[key]
@@ -114,12 +136,12 @@ class World:
                 raise Viol("recurrence", f"{where}:{what}", f"after {where}: registry contents {key[9:] if key[:9] == tuple(self.builtins) else key} were seen before with other {what}: {diff or (old[1] != obs[1] and (set(old[1]) ^ set(obs[1])))}")
         else:
             self.seen[key] = obs
-        if list(key) == self.builtins:
+        if list(reg.profiles) == self.builtins:
             self.stats["probe:builtins_only_state"] += 1
             if obs != self.fresh:
                 diff = [(BATTERY[i], self.fresh[0][i], obs[0][i]) for i in range(len(BATTERY)) if self.fresh[0][i] != obs[0][i]][:4]
                 raise Viol("equals_fresh_registry", f"{where}:{'verdicts' if diff else 'names'}", f"after {where}: only the built-in profiles are registered but the registry differs from a new Profiles(): {diff}")
-        if any(p in key for p in ("P3", "P4", "P5", "P6")):
+        if any(p in reg.profiles for p in ("P3", "P4", "P5", "P6")):
             self.stats["probe:macro_override_active"] += 1
         return obs
 
@@ -128,9 +150,12 @@ class World:
         out = "?"
         if k == "add":
             props, macros = CUSTOM[op["name"]]
+            if op.get("nomacros"):
+                macros = None
             kk, v = lib.call(reg.addProfile, op["name"], dict(props), dict(macros) if macros else None)
             out = "ok" if kk == "ok" else "exc:" + lib.ename(v)
             if kk == "ok":
+                self.variant[op["name"]] = "#nm" if op.get("nomacros") and CUSTOM[op["name"]][1] else ""
                 self.stats["accepted"] += 1
                 if self.removed_any:
                     self.stats["probe:interleaved_removal"] += 1
@@ -139,6 +164,8 @@ class World:
             kk, v = lib.call(reg.addProfiles, triples)
             out = "ok" if kk == "ok" else "exc:" + lib.ename(v)
             if kk == "ok":
+                for n in op["names"]:
+                    self.variant[n] = ""
                 self.stats["accepted"] += 1
         elif k == "remove":
             before = self.observe(reg)
@@ -168,6 +195,37 @@ class World:
             out = "ok" if kk == "ok" and k2 == "ok" else "exc"
             if out == "exc":
                 raise Viol("removal_accepted", "remove_all:raises", f"removeProfile(all=True) / re-adding raised {v!r} {v2!r}")
+        elif k == "remove_each_readd":
+            # the registry is emptied by single removals (seeded order), then the built-ins come back
+            # (in reverse order of registration: a profile may use the macros of an earlier one, and removing
+            # what others still depend on is the caller's error, not part of this property)
+            order = list(reversed(reg.profiles))
+            for n in order:
+                kk, v = lib.call(reg.removeProfile, n)
+                if kk != "ok":
+                    raise Viol("removal_accepted", f"remove:raises:{lib.ename(v)}", f"removeProfile({n!r}) of a registered profile raised {v!r}")
+            if list(reg.profiles):
+                raise Viol("removal_accepted", "remove_each:left-over", f"after removing every profile singly the registry still lists {reg.profiles}")
+            if op.get("then"):
+                props, macros = CUSTOM[op["then"]]
+                lib.call(reg.addProfile, op["then"], dict(props), dict(macros) if macros else None)
+                lib.call(reg.removeProfile, op["then"])
+            k2, v2 = lib.call(reg.addProfiles, builtin_triples())
+            self.variant.clear()
+            self.stats["probe:emptied_by_single_removals"] += 1
+            out = "ok" if k2 == "ok" else "exc"
+            if out == "exc":
+                raise Viol("removal_accepted", "remove_each:readd-raises", f"re-adding the built-ins raised {v2!r}")
+        elif k == "remove_last":
+            if not reg.profiles:
+                return "empty"
+            name = reg.profiles[-1]
+            kk, v = lib.call(reg.removeProfile, name)
+            if kk != "ok":
+                raise Viol("removal_accepted", f"remove:raises:{lib.ename(v)}", f"removeProfile({name!r}) (registered last) raised {v!r}")
+            self.removed_any = True
+            out = "removed"
+            self.stats["accepted"] += 1
         elif k == "default":
             before = self.observe(reg)
             names = [n for n in op["names"] if n in reg.profiles] or None
@@ -202,7 +260,15 @@ def gen_op(r, w, i):
     if i >= cfg["n_ops"]:
         return None
     names = cfg["names"]
-    k = r.choice(["add", "add", "add", "remove", "remove", "remove", "add_many", "default", "remove_unknown", "remove_all_readd"])
+    k = r.choice(["add", "add", "add", "remove", "remove", "remove", "add_many", "default", "remove_unknown", "remove_all_readd", "remove_each_readd", "remove_builtin", "add_nomacros"])
+    if k == "remove_each_readd":
+        return {"op": k, "then": r.choice([None, None] + [n for n in names if n in SELF_CONTAINED])}
+    if k == "remove_builtin":
+        # only the profile registered last: nothing registered later can depend on its macros
+        return {"op": "remove_last"}
+    if k == "add_nomacros":
+        ok = [n for n in names if n in NOMACROS_OK]
+        return {"op": "add", "name": r.choice(ok), "nomacros": True} if ok else {"op": "add", "name": r.choice(names)}
     present = [p for p in w.reg.profiles if p in CUSTOM]
     absent = [p for p in names if p not in present]
     if k == "add":
